@@ -6,7 +6,9 @@ import glob, json, os, re, subprocess, sys
 V = os.path.dirname(os.path.dirname(os.path.abspath(__file__)))
 EXTRA = {"C01-3": ["C11"], "C04-3": ["C14"], "C12-3": ["C02"], "C09-3": ["C01"], "C02-2": ["C03"], "C02-3": ["C12"], "C09-2": ["C01"], "C01-1": [], "C03-3": [],
          "C08-2": ["C01"], "C16-3": ["C02"], "C04-4": ["C14"], "C09-4": ["C08", "C01"], "C08-4": ["C09"], "C12-5": ["C02"], "C02-5": ["C03"], "C09-1": ["C08"],
-         "C09-5": ["C01"], "C09-6": ["C08"], "C03-5": ["C01"], "C08-3": [], "C18-5": ["C14"], "C01-4": ["C11"], "C11-6": ["C01"]}
+         "C09-5": ["C01"], "C09-6": ["C08"], "C03-5": ["C01"], "C08-3": [], "C18-5": ["C14"], "C01-4": ["C11"], "C11-6": ["C01"],
+         "C03-9": ["C01"], "C02-9": ["C01"], "C02-7": ["C10"], "C10-7": ["C02"], "C02-8": ["C03", "C01"], "C10-9": ["C02"], "C09-7": ["C16", "C01"], "C09-8": ["C08", "C01"],
+         "C09-9": ["C01"], "C12-9": ["C02"], "C16-8": ["C04"], "C18-7": ["C14"], "C13-9": ["C02"], "C13-8": ["C12"]}
 items = []
 for d in sorted(glob.glob(os.path.join(V, "seeded", "C*-*"))):
     n = os.path.basename(d)
@@ -19,8 +21,7 @@ if only:
     items = [i for i in items if any(o in i for o in only)]
 STORE = os.path.join(V, "seeded", "matrix.json")
 store = json.load(open(STORE)) if os.path.exists(STORE) else {}
-subprocess.check_call(["git", "-C", "/tmp/seedrepo", "checkout", "-q", "--detach", subprocess.check_output(["git", "-C", "/repo", "rev-parse", "HEAD"], text=True).strip()])
-out = subprocess.run([sys.executable, os.path.join(V, "tools", "seedtest.py")] + items, cwd=V, capture_output=True, text=True).stdout
+out = subprocess.run([sys.executable, os.path.join(V, "tools", "prun.py"), "--jobs", os.environ.get("MATRIX_JOBS", "4")] + items, cwd=V, capture_output=True, text=True).stdout
 open("/tmp/matrix.log", "w").write(out)
 fresh = {}
 for line in out.splitlines():
